@@ -56,17 +56,14 @@ def run_oracle(sub, cases_path):
 
 RAW_EXPECT = {
     # id -> (property, regex the observation must match for the finding to "still reproduce")
-    "unary-plus-untyped": ("C01", r"^ConditionNotBool "),
-    "ampersand-untyped": ("C01", r"^TypeMismatch "),
     "power-right-associative": ("C02", r"x=DInt:512"),
-    "named-argument-case": ("C02", r"r1=Int:4 r2=Int:0"),
     "mixed-positional-formal-call": ("C02", r"r=Int:2 "),
     "return-variable-case": ("C02", r"r=Int:0 "),
     "recursion-stack-overflow": ("C01", r"^child-killed signal="),
     "fb-omitted-input-reset": ("C02", r"r1=Int:200 r2=\w+:5 "),
     "fb-input-default-not-applied": ("C02", r"r0=Int:0 "),
     "struct-field-initialiser-ignored": ("C02", r" d=DInt:0 "),
-    "struct-field-case": ("C01", r"^UndefinedField "),
+    "variable-name-case": ("C01", r"^UndefinedVariable "),
     "temp-initialiser-undefined": ("C01", r"^UndefinedVariable "),
     "temp-initialiser-family": ("C03", r" x=Bool:1 y=DInt:3"),
 }
@@ -76,6 +73,12 @@ RAW_FIXED = {
     # witnesses of FIXED findings: the observation the repaired code must give; anything else is a
     # regression and therefore a violation
     "fb-call-without-arguments": ("C01", r"^ok frames=0 r=\w+:5 "),
+    # `b := +1` (b : BOOL) and `x := 1 & 2` (x : DINT) are type errors
+    "unary-plus-untyped": ("C01", r"^reject "),
+    "ampersand-untyped": ("C01", r"^reject "),
+    # `K(N := INT#4)` binds the input `n`; `p.X` is the field `x`
+    "named-argument-case": ("C02", r"^ok frames=0 r1=Int:4 r2=Int:4 "),
+    "struct-field-case": ("C01", r"^ok frames=0 v=Int:0 "),
 }
 
 
